@@ -38,6 +38,10 @@ func main() {
 		table(os.Args[2:])
 	case "gallery":
 		gallery(os.Args[2:])
+	case "tokconf":
+		tokconf(os.Args[2:])
+	case "wiring":
+		wiring(os.Args[2:])
 	default:
 		vhlib.Fatal("unknown mode %s", os.Args[1])
 	}
@@ -253,6 +257,87 @@ func randomLong(rng *rand.Rand, t *Table) string {
 }
 
 // ---------------------------------------------------------------------------------------------------
+// tokconf: seeded random adversarial documents tokenised by x/net/html, for TraceHtmlTok.tla
+//
+//	c01 tokconf <chars.json> <seed> <n> <outdir> <shards>
+
+var docPieces = []string{
+	"a", " ", "x y", "&amp;", "&lt", "&lt;", "&#39;", "&#x41;", "&#65", "&notit;", "&notin;", "&copy=", "&copy", "&", "&#", "&#x", "&#;", "&#xZ", "&unknown;", "&ampx",
+	"x<3", "<", ">", "\"", "'", "=", "/", "\r\n", "\r", "\n", "\t", "\f", "\u00e9", "\u2028", "\u017f", "&#128;", "&#x80;", "&#0;", "&#xD800;", "&#x110000;", "&#1114112;",
+	"<p>", "</p>", "<a href=\"x&amp;y\">", "<a href='q\"q'>", "<a href=u&lt=1 b>", "<a href=u&lt;=1 b>", "<br/>", "<div a b=c d = 'e'>", "<P CLASS=X>", "</a >", "<a/b>",
+	"<a b=c/>", "< p>", "</>", "</ p>", "<?php x?>", "<!x>", "<!-->", "<!--x-->", "<!-- a -- b -->", "<!--<!--x-->", "<!--x--!>", "<!---->", "<!--->", "<!--x--", "<!-",
+	"<!DOCTYPE html>", "<!doctype html \"a>b\">", "<![CDATA[x]]>", "<a b='c' b=\"d\">", "<a =b>", "<a b==c>", "<a \"b\"=c>", "<a b=&quot;c&quot;>", "<a b=\"&notit=\" c=&notit; d=&not>",
+	"<a b=\"&#39;&#34;\">", "<input value=\"a\"\"b\">", "<a b=c'd>", "<a b=`c`>", "<a\tb\n=\r\nc>", "<a//b>", "<a b= >", "<a b=>x",
+	"<textarea>a&lt;</p><b></textarea>", "<title>x</titlex></title >", "<title>&amp</TITLE>", "<xmp>&amp;<b></xmp>", "<style>p{}</styl></style>", "<script>a<b</script>",
+	"<script><!--<script></script>--></script>", "<script><!--x--></script>", "<script>'</scr'+'ipt>'</script>", "<script><!--<script>x</script>y</script>--></script>",
+	"<script><!-- </script>", "<script>--></script>", "<script><!---></script>", "<script><!--<scriptx></script>", "<noscript><p></noscript>", "<iframe>&lt;</iframe>",
+	"<noembed><</noembed>", "<noframes></noframe></noframes>", "<textarea></textarea/>", "<textarea></textarea x=y>", "<xmp></xmp\t>", "<style></style/x>", "<TEXTAREA>x</TeXtArEa>",
+	"<script/>x</script>", "<svg><title>x</title></svg>", "<a-b c-d=e>", "<a1>", "<1a>", "<a.b>",
+}
+
+func tokconf(args []string) {
+	t, err := LoadTable(args[0])
+	if err != nil {
+		vhlib.Fatal("%v", err)
+	}
+	seed, _ := strconv.ParseInt(args[1], 10, 64)
+	n, _ := strconv.Atoi(args[2])
+	outdir := args[3]
+	nshards, _ := strconv.Atoi(args[4])
+	rng := rand.New(rand.NewSource(seed))
+	ws := make([]*bufio.Writer, nshards)
+	for i := range ws {
+		f, err := os.Create(filepath.Join(outdir, fmt.Sprintf("tok-%d.ndjson", i)))
+		if err != nil {
+			vhlib.Fatal("%v", err)
+		}
+		defer f.Close()
+		ws[i] = bufio.NewWriterSize(f, 1<<20)
+	}
+	adv := "<>&\"'/=;#!-? \tax"
+	// closes whatever the random part left open, so that both tokenizers end in the data state
+	const closer = "-->\"'></script></textarea></title></xmp></style></noscript></iframe></noembed></noframes><z>"
+	type line struct {
+		ID  int         `json:"id"`
+		Doc []int       `json:"doc"`
+		Evs []SpecEvent `json:"evs"`
+	}
+	idx, _ := os.Create(filepath.Join(outdir, "tok-docs.ndjson"))
+	defer idx.Close()
+	iw := bufio.NewWriter(idx)
+	for i := 0; i < n; i++ {
+		var sb strings.Builder
+		for k := 1 + rng.Intn(8); k > 0; k-- {
+			if rng.Intn(4) == 0 {
+				sb.WriteByte(adv[rng.Intn(len(adv))])
+			} else {
+				sb.WriteString(docPieces[rng.Intn(len(docPieces))])
+			}
+		}
+		sb.WriteString(closer)
+		doc := sb.String()
+		if strings.Contains(doc, "&#x;") || strings.Contains(doc, "&#X;") {
+			// known x/net/html deviation: "&#x;" (no digits) is decoded to U+FFFD there, the standard flushes it as text
+			i--
+			continue
+		}
+		evs := t.Events(doc)
+		if evs == nil {
+			evs = []SpecEvent{}
+		}
+		b, _ := json.Marshal(line{i, t.Syms(doc), evs})
+		ws[i%nshards].Write(b)
+		ws[i%nshards].WriteByte('\n')
+		fmt.Fprintf(iw, "%d\t%s\n", i, strconv.Quote(doc))
+	}
+	for _, w := range ws {
+		w.Flush()
+	}
+	iw.Flush()
+	vhlib.Summary(map[string]any{"docs": n, "pieces": len(docPieces)})
+}
+
+// ---------------------------------------------------------------------------------------------------
 // gallery
 
 type traceLine struct {
@@ -428,11 +513,11 @@ func gallery(args []string) {
 	}
 
 	var (
-		mu                                      sync.Mutex
+		mu                                                sync.Mutex
 		renders, goFails, goListed, drift, tlcCases, errs int
-		perSink                                 = map[string]int{}
-		perSrc                                  = map[string]int{}
-		samples                                 int
+		perSink                                           = map[string]int{}
+		perSrc                                            = map[string]int{}
+		samples                                           int
 	)
 	var wg sync.WaitGroup
 	sem := make(chan struct{}, 16)
@@ -493,7 +578,7 @@ func gallery(args []string) {
 					writeTrace(traceLine{ID: idn, Sink: pi, In: t.Syms(v), Out: t.Syms(out)})
 					lt++
 				}
-				if xi%9973 == 17 {
+				if ts.src == "exhaustive" && len(ts.s) >= 3 && (xi+si*131)%1777 == 3 {
 					mu.Lock()
 					if samples < 5 {
 						samples++
